@@ -195,11 +195,29 @@ def run(tier):
     good = sorted(alone)
     items, meta = [], []
     nprog = 150 if not full else 3000
+    # besides the fixed kinds: generated label lines whose NAMES follow NASM's identifier grammar (first character a letter, '_', '?' or
+    # '.', then letters, digits and _ $ # @ ~ . ?; 1-90 characters; also names that are mnemonics, registers or look like numbers), in
+    # the shapes 'name:', 'name :', indented, followed by blanks / a comment; section and global lines with attributes, several names,
+    # trailing comments
+    FIRST = "abcdefghijklmnopqrstuvwxyzABCDEFGHIJKLMNOPQRSTUVWXYZ_?."
+    REST = FIRST + "0123456789$#@~"
+
+    def gen_skip_line():
+        kind = rnd.randrange(10)
+        if kind < 6:
+            n = rnd.choice([1, 2, 3, 5, 8, 13, 30, 60, 90])
+            name = rnd.choice(FIRST) + "".join(rnd.choice(REST) for _ in range(n - 1))
+            if kind == 5:
+                name = rnd.choice(["add", "mov", "ret", "rax", "r8", "xmm0", "qword", "short", "x10", "a0x10", "..@42.loop", "?skip", "fn#2", "tmp~1", "memcpy@plt", "$dollar" if False else "_$", "L.1.2", "section_", "global1"])
+            return rnd.choice(["%s:", "%s :", "  %s:", "\t%s:", "%s:  ", "%s:\t", "%s: ; c", "%s:;c", "%s: ; mov rax, rbx", "%s  :  ; x"]) % name
+        if kind < 8:
+            return rnd.choice(["section .%s", "SECTION .%s", "section .%s progbits alloc exec nowrite align=16", "section .%s ; c", "\tsection .%s\t", "Section .%s align=4096"]) % rnd.choice(["text", "data", "bss", "rodata", "text.hot", "note.GNU-stack"])
+        return rnd.choice(["global %s", "GLOBAL %s", "global %s, g2, g3", "global %s:function", "global %s ; exported", "\tglobal\t%s", "global %s:data 8"]) % rnd.choice(["f", "_start", "main", "?x", "a.b", "fn#2", "mov"])
     for k in range(nprog):
         prog = [rnd.choice(good) for _ in range(rnd.randrange(1, 7))]
         expect = "".join(alone[l] for l in prog)
         for pos in range(len(prog) + 1):
-            for ins in corpus.SKIP_LINES:
+            for ins in corpus.SKIP_LINES + [gen_skip_line() for _ in range(10)]:
                 p2 = prog[:pos] + [ins] + prog[pos:]
                 sep = "\r\n" if (k + pos) % 3 == 0 else "\n"
                 items.append((enc.DEFAULT, sep.join(p2), 0))
@@ -217,7 +235,7 @@ def run(tier):
             v.distinct(("ins", tuple(prog), pos, ins))
     v.cov["rule"] = ("metamorphic: every line of the C01-C05 corpora (sampled in quick) x seeded rewritings {letter case of mnemonic/registers/keywords/hex digits/0X, 0-3 blanks around operands, commas, + - * and inside brackets, "
                      "leading blanks/tabs, trailing ';' comments with ':' '%' '[' inside, LF/CRLF ends, decimal <-> hex <-> leading zeros for immediates and displacements} and compositions of them, under default and "
-                     "sampled option combos ('mov r64,imm' under NASM mov mode, where spelling is documented not to matter); plus programs with blank/comment/label/section/global lines inserted at every position. "
+                     "sampled option combos ('mov r64,imm' under NASM mov mode, where spelling is documented not to matter); plus programs with blank/comment/label/section/global lines inserted at every position (33 fixed kinds and generated ones: label names from NASM's identifier grammar incl. $ # @ ~ . ?, 1-90 characters, names equal to mnemonics / registers; section / global lines with attributes, several names, comments). "
                      "Oracle: identical return code and bytes")
     v.cov["exhaustive"] = False
     v.cov.update(stats)
